@@ -25,6 +25,8 @@ func main() {
 				return runBind(in)
 			case 3:
 				return runAgent(in)
+			case 6:
+				return runBindInit(in)
 			case 4:
 				return runEvictCycle(in)
 			}
@@ -32,7 +34,7 @@ func main() {
 		},
 		Laws: func(sel int, in, got []int64, law func(lsel int, lin []int64, sig string)) {
 			switch sel {
-			case 2, 3:
+			case 2, 3, 6:
 				bindLaws(in, law)
 				return
 			case 4:
